@@ -1,7 +1,7 @@
 (* C06 Length prefixes: encode/decode are inverse, exact-width and bounded.
    Model: Model/Prefix.v; proofs: Proofs/PrefixProofs.v; registry: Gen/Prefixers.v (regenerated from /repo). *)
 From Coq Require Import Strings.String.
-From Iso Require Import Model.Base Model.Encoding Model.Prefix Model.Sexp Model.Run Gen.Prefixers
+From Iso Require Import Model.Base Model.Encoding Model.Prefix Model.Sexp Model.Terms Gen.Prefixers
      Proofs.BaseLemmas Proofs.DigitsProofs Proofs.PrefixProofs.
 Open Scope list_scope.
 
